@@ -13,14 +13,19 @@ Ltac xsimp :=
        set_pt set_conn set_qc set_h set_flags set_w set_ev set_net
        g_w g_conn g_res g_ev g_panic add_res add_ev add_w add_conn set_panic] in *.
 
-(* the invariant of the draining phase: the stream has ended ([x_eof]); what is buffered or still in
-   the transport is a prefix of the encodings of the responses [rs] *)
+Section Drain.
+Variable cf : sconf.
+Notation S2C := (LoopRefine.S2C cf).
+Notation wf_s := (LoopRefine.wf_s cf).
+Notation echo_reply := (LoopRefine.echo_reply cf).
+
+(* the invariant of the draining phase: the stream has ended ([x_eof]) or every read fails ([x_rerr]); what is
+   buffered or still in the transport is a prefix of the encodings of the responses [rs] *)
 Record DInv (x : xsys) (rs : list sresp) : Prop := mkDInv {
   d_h : x_h x = HDone;
   d_client : x_client x = true;
   d_spawned : x_spawned x = true;
-  d_eof : x_eof x = true;
-  d_rerr : x_rerr x = false;
+  d_dead : (x_eof x = true /\ x_rerr x = false) \/ x_rerr x = true;
   d_wfail : x_wfail x = false;
   d_handle : x_handle x = true;
   d_wp : x_wp x = false;
@@ -41,21 +46,38 @@ Definition ids (g : seg) (x : xsys) : list N := map fst (g_res g) ++ map fst (x_
 
 (* ---------- the end of the stream at a receive ---------- *)
 
+Definition ending (e : rres) : Prop := e = RClean \/ exists pe, e = RErr pe.
+
+Lemma s2c_regroup st buf inbox wire rs : S2C st buf [] (inbox ++ wire) rs -> S2C st buf inbox wire rs.
+Proof. intros [done [P E]]. exists done. split; [exact P|]. cbn [app] in E. exact E. Qed.
+
+Lemma s2c_group st buf inbox wire rs : S2C st buf inbox wire rs -> S2C st buf [] (inbox ++ wire) rs.
+Proof. intros [done [P E]]. exists done. split; [exact P|]. cbn [app]. exact E. Qed.
+
 Lemma try_receive_eof x rs : DInv x rs ->
-  exists st' rest,
-    (exists e, try_receive x = (Some e, set_conn x rest st' []) /\ (e = RClean \/ e = RErr EUeof) /\
-               S2C st' rest [] (x_s2c x) rs) \/
+  exists st' rest left,
+    (exists e, try_receive x = (Some e, set_conn x rest st' left) /\ ending e /\
+               S2C st' rest left (x_s2c x) rs) \/
     (exists r1 rs', rs = r1 :: rs' /\
-       try_receive x = (Some (RResp (resp_of echo_reply r1)), set_conn x rest st' []) /\
-       S2C st' rest [] (x_s2c x) rs').
+       try_receive x = (Some (RResp (resp_of echo_reply r1)), set_conn x rest st' left) /\
+       S2C st' rest left (x_s2c x) rs').
 Proof.
-  intros D. unfold try_receive. rewrite (d_rerr _ _ D), (d_eof _ _ D).
-  pose proof (recv_sim _ _ _ _ _ (d_s2c_wf _ _ D) (d_s2c _ _ D)) as RS.
-  destruct (bparse_all (x_bst x) (x_buf x ++ x_inbox x)) as [[st' rest] v].
-  exists st', rest. destruct v as [r| |].
-  - right. destruct RS as [r1 [rs' [E1 [E2 E3]]]]. exists r1, rs'. subst r. auto.
-  - left. destruct (in_progress st' || negb (beq rest [])); eexists; (split; [reflexivity|]); auto.
-  - contradiction.
+  intros D. unfold try_receive. destruct (d_dead _ _ D) as [[EO ER]|ER]; rewrite ER.
+  - rewrite EO.
+    pose proof (recv_sim cf _ _ _ _ _ (d_s2c_wf _ _ D) (d_s2c _ _ D)) as RS.
+    destruct (bparse_all (x_bst x) (x_buf x ++ x_inbox x)) as [[st' rest] v].
+    exists st', rest, []. destruct v as [r| |].
+    + right. destruct RS as [r1 [rs' [E1 [E2 E3]]]]. exists r1, rs'. subst r. auto.
+    + left. destruct (in_progress st' || negb (beq rest [])); eexists; (split; [reflexivity|]); split; auto;
+        [right; eexists; reflexivity|left; reflexivity].
+    + contradiction.
+  - pose proof (recv_sim cf _ _ _ _ _ (d_s2c_wf _ _ D) (s2c_group _ _ _ _ _ (d_s2c _ _ D))) as RS.
+    destruct (bparse_all (x_bst x) (x_buf x ++ [])) as [[st' rest] v].
+    exists st', rest, (x_inbox x). destruct v as [r| |].
+    + right. destruct RS as [r1 [rs' [E1 [E2 E3]]]]. exists r1, rs'. subst r. split; [exact E1|]. split; [reflexivity|].
+      apply s2c_regroup. exact E3.
+    + left. eexists. split; [reflexivity|]. split; [right; eexists; reflexivity|]. apply s2c_regroup. exact RS.
+    + contradiction.
 Qed.
 
 (* ---------- the loop leaves: the queue is dropped, caller by caller ---------- *)
@@ -108,17 +130,17 @@ Definition dpost (x : xsys) (rs : list sresp) (g : seg) (x' : xsys) (g' : seg) :
   exists rs', DInv x' rs' /\ (dmu x' rs' < dmu x rs)%nat /\ ids g' x' = ids g x /\ g_panic g' = g_panic g.
 
 Ltac destr_dinv D :=
-  destruct D as [Dh Dclient Dspawned Deof Drerr Dwfail Dhandle Dwp Dwh Devq Dcallers Dexited Ds2cwf Ds2c].
+  destruct D as [Dh Dclient Dspawned Ddead Dwfail Dhandle Dwp Dwh Devq Dcallers Dexited Ds2cwf Ds2c].
 
 (* the stream ends while the loop idles: it leaves, every queued request is dropped *)
-Lemma drain_idle_end x rs g st' buf' e :
-  DInv x rs -> x_pt x = PIdle -> try_receive x = (Some e, set_conn x buf' st' []) -> e = RClean \/ e = RErr EUeof ->
-  S2C st' buf' [] (x_s2c x) rs ->
+Lemma drain_idle_end x rs g st' buf' left e :
+  DInv x rs -> x_pt x = PIdle -> try_receive x = (Some e, set_conn x buf' st' left) -> ending e ->
+  S2C st' buf' left (x_s2c x) rs ->
   exists x' g', xstep x g = Some (x', g') /\ dpost x rs g x' g'.
 Proof.
   intros D EP TR EE SC. pose proof D as D'. destr_dinv D'.
   unfold xstep, client_event. rewrite EP. cbn [wants_recv wants_cmd]. rewrite TR. xsimp. rewrite Dwfail, EP.
-  destruct EE as [-> | ->]; cbn [cstep route_all route]; xsimp; rewrite ?Devq.
+  destruct EE as [-> | [pe ->]]; cbn [cstep route_all route]; xsimp; rewrite ?Devq.
   - rewrite on_exit_exited by (xsimp; first [reflexivity|rewrite Dcallers, EP; reflexivity]). xsimp.
     eexists. eexists. split; [reflexivity|]. exists rs. split; [|split; [|split]].
     + constructor; xsimp; try assumption; try reflexivity.
@@ -133,14 +155,31 @@ Proof.
     + reflexivity.
 Qed.
 
-Lemma drain_idle_resp x rs g st' buf' r1 rs' :
-  DInv x rs -> x_pt x = PIdle -> rs = r1 :: rs' ->
-  try_receive x = (Some (RResp (resp_of echo_reply r1)), set_conn x buf' st' []) -> S2C st' buf' [] (x_s2c x) rs' ->
+(* a well-formed reply has a first frame or is an error *)
+Lemma single_some r1 : wf_s r1 ->
+  (exists f, single_frame (resp_of echo_reply r1) = Some (inl f)) \/
+  (exists e, single_frame (resp_of echo_reply r1) = Some (inr e)).
+Proof.
+  destruct r1 as [ns|u]; intros W.
+  - left. eexists. reflexivity.
+  - cbn [LoopRefine.wf_s] in W. destruct (echo_line_parts cf _ W) as [_ [_ [_ [_ [WF _]]]]].
+    cbn [resp_of]. unfold LoopRefine.echo_reply. set (r := reply_of_line cf (removelast u)) in *.
+    unfold wf_resp in WF. apply Bool.andb_true_iff in WF. destruct WF as [WF _].
+    apply Bool.andb_true_iff in WF. destruct WF as [SHP _].
+    unfold wf_shape, aresp_of in SHP. cbn [a_form a_error a_frames] in SHP. rewrite map_length in SHP.
+    unfold single_frame. destruct (r_error r) as [e|].
+    + apply Nat.eqb_eq in SHP. destruct (r_frames r); [right; eexists; reflexivity|discriminate].
+    + apply Nat.eqb_eq in SHP. destruct (r_frames r) as [|f fs]; [discriminate|left; eexists; reflexivity].
+Qed.
+
+Lemma drain_idle_frame x rs g st' buf' left r1 rs' f :
+  DInv x rs -> x_pt x = PIdle -> rs = r1 :: rs' -> single_frame (resp_of echo_reply r1) = Some (inl f) ->
+  try_receive x = (Some (RResp (resp_of echo_reply r1)), set_conn x buf' st' left) -> S2C st' buf' left (x_s2c x) rs' ->
   exists x' g', xstep x g = Some (x', g') /\ dpost x rs g x' g'.
 Proof.
-  intros D EP ER TR SC. pose proof D as D'. destr_dinv D'.
+  intros D EP ER SF TR SC. pose proof D as D'. destr_dinv D'.
   unfold xstep, client_event. rewrite EP. cbn [wants_recv wants_cmd]. rewrite TR. xsimp. rewrite Dwfail, EP.
-  cbn [cstep]. rewrite single_of, events_of_frame.
+  cbn [cstep]. rewrite SF. unfold events_of.
   rewrite route_events by (xsimp; exact Devq). cbn [route_all route]. xsimp. rewrite Dwp.
   rewrite on_exit_alive by (xsimp; discriminate).
   eexists. eexists. split; [reflexivity|]. exists rs'. rewrite ER in Ds2cwf. split; [|split; [|split]].
@@ -152,14 +191,31 @@ Proof.
   - reflexivity.
 Qed.
 
-Lemma drain_cancel_end x rs g q st' buf' e :
-  DInv x rs -> x_pt x = PCancel q -> try_receive x = (Some e, set_conn x buf' st' []) -> e = RClean \/ e = RErr EUeof ->
-  S2C st' buf' [] (x_s2c x) rs ->
+(* a reply that is an error where an idle reply is expected: the loop leaves (ConnectionClosed(InvalidResponse)) *)
+Lemma drain_idle_bad x rs g st' buf' left r1 rs' e :
+  DInv x rs -> x_pt x = PIdle -> rs = r1 :: rs' -> single_frame (resp_of echo_reply r1) = Some (inr e) ->
+  try_receive x = (Some (RResp (resp_of echo_reply r1)), set_conn x buf' st' left) -> S2C st' buf' left (x_s2c x) rs' ->
+  exists x' g', xstep x g = Some (x', g') /\ dpost x rs g x' g'.
+Proof.
+  intros D EP ER SF TR SC. pose proof D as D'. destr_dinv D'.
+  unfold xstep, client_event. rewrite EP. cbn [wants_recv wants_cmd]. rewrite TR. xsimp. rewrite Dwfail, EP.
+  cbn [cstep]. rewrite SF. cbn [route_all route]. xsimp. rewrite ?Devq.
+  rewrite on_exit_exited by (xsimp; first [reflexivity|rewrite Dcallers, EP; reflexivity]). xsimp.
+  eexists. eexists. split; [reflexivity|]. exists rs'. rewrite ER in Ds2cwf. split; [|split; [|split]].
+  - constructor; xsimp; try assumption; try reflexivity. exact (Forall_inv_tail Ds2cwf).
+  - unfold dmu. xsimp. rewrite EP, ER. cbn. lia.
+  - unfold ids, add_closed. xsimp. rewrite Dcallers, EP. cbn [callers_for held app]. rewrite map_app, !map_map, app_nil_r. reflexivity.
+  - reflexivity.
+Qed.
+
+Lemma drain_cancel_end x rs g q st' buf' left e :
+  DInv x rs -> x_pt x = PCancel q -> try_receive x = (Some e, set_conn x buf' st' left) -> ending e ->
+  S2C st' buf' left (x_s2c x) rs ->
   exists x' g', xstep x g = Some (x', g') /\ dpost x rs g x' g'.
 Proof.
   intros D EP TR EE SC. pose proof D as D'. destr_dinv D'.
   unfold xstep, client_event. rewrite EP. cbn [wants_recv wants_cmd]. rewrite TR. xsimp. rewrite Dwfail, EP.
-  destruct EE as [-> | ->]; cbn [cstep route_all route]; xsimp;
+  destruct EE as [-> | [pe ->]]; cbn [cstep route_all route]; xsimp;
     rewrite Dcallers, EP; cbn [callers_for held app map]; unfold ent at 1; cbn [find_caller]; rewrite N.eqb_refl;
     cbn [caller_result]; xsimp; rewrite Dcallers, EP; cbn [callers_for held app map]; unfold ent at 1;
     cbn [remove_caller]; rewrite N.eqb_refl;
@@ -172,14 +228,14 @@ Proof.
      rewrite !map_app, !map_map, app_nil_r, <- app_assoc; reflexivity).
 Qed.
 
-Lemma drain_cancel_resp x rs g q st' buf' r1 rs' :
-  DInv x rs -> x_pt x = PCancel q -> rs = r1 :: rs' ->
-  try_receive x = (Some (RResp (resp_of echo_reply r1)), set_conn x buf' st' []) -> S2C st' buf' [] (x_s2c x) rs' ->
+Lemma drain_cancel_frame x rs g q st' buf' left r1 rs' f :
+  DInv x rs -> x_pt x = PCancel q -> rs = r1 :: rs' -> single_frame (resp_of echo_reply r1) = Some (inl f) ->
+  try_receive x = (Some (RResp (resp_of echo_reply r1)), set_conn x buf' st' left) -> S2C st' buf' left (x_s2c x) rs' ->
   exists x' g', xstep x g = Some (x', g') /\ dpost x rs g x' g'.
 Proof.
-  intros D EP ER TR SC. pose proof D as D'. destr_dinv D'.
+  intros D EP ER SF TR SC. pose proof D as D'. destr_dinv D'.
   unfold xstep, client_event. rewrite EP. cbn [wants_recv wants_cmd]. rewrite TR. xsimp. rewrite Dwfail, EP.
-  cbn [cstep]. rewrite single_of, events_of_frame.
+  cbn [cstep]. rewrite SF. unfold events_of.
   rewrite route_events by (xsimp; exact Devq). cbn [route_all route]. xsimp. rewrite Dwp.
   rewrite on_exit_alive by (xsimp; discriminate).
   eexists. eexists. split; [reflexivity|]. exists rs'. rewrite ER in Ds2cwf. split; [|split; [|split]].
@@ -191,9 +247,29 @@ Proof.
   - reflexivity.
 Qed.
 
-Lemma drain_wait_resp x rs g id st' buf' r1 rs' :
+Lemma drain_cancel_bad x rs g q st' buf' left r1 rs' e :
+  DInv x rs -> x_pt x = PCancel q -> rs = r1 :: rs' -> single_frame (resp_of echo_reply r1) = Some (inr e) ->
+  try_receive x = (Some (RResp (resp_of echo_reply r1)), set_conn x buf' st' left) -> S2C st' buf' left (x_s2c x) rs' ->
+  exists x' g', xstep x g = Some (x', g') /\ dpost x rs g x' g'.
+Proof.
+  intros D EP ER SF TR SC. pose proof D as D'. destr_dinv D'.
+  unfold xstep, client_event. rewrite EP. cbn [wants_recv wants_cmd]. rewrite TR. xsimp. rewrite Dwfail, EP.
+  cbn [cstep]. rewrite SF. cbn [route_all route]. xsimp. rewrite ?Devq. xsimp.
+  rewrite Dcallers, EP; cbn [callers_for held app map]; unfold ent at 1; cbn [find_caller]; rewrite N.eqb_refl;
+    cbn [caller_result]; xsimp; rewrite Dcallers, EP; cbn [callers_for held app map]; unfold ent at 1;
+    cbn [remove_caller]; rewrite N.eqb_refl.
+  rewrite on_exit_exited by (xsimp; reflexivity). xsimp.
+  eexists. eexists. split; [reflexivity|]. exists rs'. rewrite ER in Ds2cwf. split; [|split; [|split]].
+  - constructor; xsimp; try assumption; try reflexivity. exact (Forall_inv_tail Ds2cwf).
+  - unfold dmu. xsimp. rewrite EP, ER. cbn. lia.
+  - unfold ids, add_closed, add_res. xsimp. rewrite Dcallers, EP. cbn [callers_for held app map fst ent].
+    rewrite !map_app, !map_map, app_nil_r, <- app_assoc. reflexivity.
+  - reflexivity.
+Qed.
+
+Lemma drain_wait_resp x rs g id st' buf' left r1 rs' :
   DInv x rs -> x_pt x = PWait id -> rs = r1 :: rs' ->
-  try_receive x = (Some (RResp (resp_of echo_reply r1)), set_conn x buf' st' []) -> S2C st' buf' [] (x_s2c x) rs' ->
+  try_receive x = (Some (RResp (resp_of echo_reply r1)), set_conn x buf' st' left) -> S2C st' buf' left (x_s2c x) rs' ->
   exists x' g', xstep x g = Some (x', g') /\ dpost x rs g x' g'.
 Proof.
   intros D EP ER TR SC. pose proof D as D'. destr_dinv D'.
@@ -210,14 +286,14 @@ Proof.
   - reflexivity.
 Qed.
 
-Lemma drain_wait_end x rs g id st' buf' e :
-  DInv x rs -> x_pt x = PWait id -> try_receive x = (Some e, set_conn x buf' st' []) -> e = RClean \/ e = RErr EUeof ->
-  S2C st' buf' [] (x_s2c x) rs ->
+Lemma drain_wait_end x rs g id st' buf' left e :
+  DInv x rs -> x_pt x = PWait id -> try_receive x = (Some e, set_conn x buf' st' left) -> ending e ->
+  S2C st' buf' left (x_s2c x) rs ->
   exists x' g', xstep x g = Some (x', g') /\ dpost x rs g x' g'.
 Proof.
   intros D EP TR EE SC. pose proof D as D'. destr_dinv D'.
   unfold xstep, client_event. rewrite EP. cbn [wants_recv wants_cmd]. rewrite TR. xsimp. rewrite Dwfail, EP.
-  destruct EE as [-> | ->]; cbn [cstep route_all route]; xsimp;
+  destruct EE as [-> | [pe ->]]; cbn [cstep route_all route]; xsimp;
     rewrite Dcallers, EP; cbn [callers_for find_caller]; rewrite N.eqb_refl;
     cbn [caller_result]; xsimp; rewrite Dcallers, EP; cbn [callers_for remove_caller]; rewrite N.eqb_refl.
   - (* clean end while waiting: the loop leaves *)
@@ -281,15 +357,21 @@ Lemma drain_step x rs g : DInv x rs ->
   end.
 Proof.
   intros D. destruct (x_pt x) as [|q|id| |] eqn:EP.
-  - destruct (try_receive_eof x rs D) as [st' [rest [[e [TR [EE SC]]]|[r1 [rs' [ER [TR SC]]]]]]].
-    + destruct (drain_idle_end x rs g st' rest e D EP TR EE SC) as [x' [g' [EX P]]]. rewrite EX. exact P.
-    + destruct (drain_idle_resp x rs g st' rest r1 rs' D EP ER TR SC) as [x' [g' [EX P]]]. rewrite EX. exact P.
-  - destruct (try_receive_eof x rs D) as [st' [rest [[e [TR [EE SC]]]|[r1 [rs' [ER [TR SC]]]]]]].
-    + destruct (drain_cancel_end x rs g q st' rest e D EP TR EE SC) as [x' [g' [EX P]]]. rewrite EX. exact P.
-    + destruct (drain_cancel_resp x rs g q st' rest r1 rs' D EP ER TR SC) as [x' [g' [EX P]]]. rewrite EX. exact P.
-  - destruct (try_receive_eof x rs D) as [st' [rest [[e [TR [EE SC]]]|[r1 [rs' [ER [TR SC]]]]]]].
-    + destruct (drain_wait_end x rs g id st' rest e D EP TR EE SC) as [x' [g' [EX P]]]. rewrite EX. exact P.
-    + destruct (drain_wait_resp x rs g id st' rest r1 rs' D EP ER TR SC) as [x' [g' [EX P]]]. rewrite EX. exact P.
+  - destruct (try_receive_eof x rs D) as [st' [rest [left [[e [TR [EE SC]]]|[r1 [rs' [ER [TR SC]]]]]]]].
+    + destruct (drain_idle_end x rs g st' rest left e D EP TR EE SC) as [x' [g' [EX P]]]. rewrite EX. exact P.
+    + assert (W1 : wf_s r1) by (pose proof (d_s2c_wf _ _ D) as W; rewrite ER in W; exact (Forall_inv W)).
+      destruct (single_some r1 W1) as [[f SF]|[e SF]].
+      * destruct (drain_idle_frame x rs g st' rest left r1 rs' f D EP ER SF TR SC) as [x' [g' [EX P]]]. rewrite EX. exact P.
+      * destruct (drain_idle_bad x rs g st' rest left r1 rs' e D EP ER SF TR SC) as [x' [g' [EX P]]]. rewrite EX. exact P.
+  - destruct (try_receive_eof x rs D) as [st' [rest [left [[e [TR [EE SC]]]|[r1 [rs' [ER [TR SC]]]]]]]].
+    + destruct (drain_cancel_end x rs g q st' rest left e D EP TR EE SC) as [x' [g' [EX P]]]. rewrite EX. exact P.
+    + assert (W1 : wf_s r1) by (pose proof (d_s2c_wf _ _ D) as W; rewrite ER in W; exact (Forall_inv W)).
+      destruct (single_some r1 W1) as [[f SF]|[e SF]].
+      * destruct (drain_cancel_frame x rs g q st' rest left r1 rs' f D EP ER SF TR SC) as [x' [g' [EX P]]]. rewrite EX. exact P.
+      * destruct (drain_cancel_bad x rs g q st' rest left r1 rs' e D EP ER SF TR SC) as [x' [g' [EX P]]]. rewrite EX. exact P.
+  - destruct (try_receive_eof x rs D) as [st' [rest [left [[e [TR [EE SC]]]|[r1 [rs' [ER [TR SC]]]]]]]].
+    + destruct (drain_wait_end x rs g id st' rest left e D EP TR EE SC) as [x' [g' [EX P]]]. rewrite EX. exact P.
+    + destruct (drain_wait_resp x rs g id st' rest left r1 rs' D EP ER TR SC) as [x' [g' [EX P]]]. rewrite EX. exact P.
   - destruct (x_queue x) as [|q rest] eqn:EQ.
     + destruct (idle_timeout_ms <=? x_elapsed x) eqn:ET.
       * destruct (drain_window_timeout x rs g D EP EQ ET) as [x' [g' [EX P]]]. rewrite EX. exact P.
@@ -332,6 +414,8 @@ Proof.
     split; [exact DS|]. split; [exact CE|]. rewrite CE. cbn. rewrite app_nil_r. auto.
 Qed.
 
+End Drain.
+
 (* ---------- from a fault-free state ---------- *)
 
 Ltac destr_rel HR :=
@@ -344,19 +428,29 @@ Ltac compute_eqb :=
            let v := eval vm_compute in (N.eqb (Npos a) (Npos c)) in change (N.eqb (Npos a) (Npos c)) with v
          end.
 
-Lemma dinv_of_rel cf x s : Rel cf x s -> Inv echo_reply s ->
-  DInv (set_flags x true (x_rerr x) (x_wfail x) (x_handle x) (x_evend x)) (a_s2c s).
+Lemma dinv_of_rel cf x s : Rel cf x s -> Inv (echo_reply cf) s ->
+  DInv cf (set_flags x true (x_rerr x) (x_wfail x) (x_handle x) (x_evend x)) (a_s2c s).
 Proof.
   intros HR HI. destr_rel HR. constructor; xsimp; try assumption; try reflexivity.
+  - left. split; [reflexivity|assumption].
   - rewrite Hcallers, Hpt, Hqueue. reflexivity.
   - intros EP. exfalso. destruct HI as [SH _]. unfold shape in SH. rewrite <- Hpt, EP in SH. exact SH.
 Qed.
 
-Lemma dmu_bound cf x s : Rel cf x s -> Inv echo_reply s ->
+Lemma dinv_of_rel_rerr cf x s : Rel cf x s -> Inv (echo_reply cf) s ->
+  DInv cf (set_flags x (x_eof x) true (x_wfail x) (x_handle x) (x_evend x)) (a_s2c s).
+Proof.
+  intros HR HI. destr_rel HR. constructor; xsimp; try assumption; try reflexivity.
+  - right. reflexivity.
+  - rewrite Hcallers, Hpt, Hqueue. reflexivity.
+  - intros EP. exfalso. destruct HI as [SH _]. unfold shape in SH. rewrite <- Hpt, EP in SH. exact SH.
+Qed.
+
+Lemma dmu_bound cf x s : Rel cf x s -> Inv (echo_reply cf) s ->
   (dmu (set_flags x true (x_rerr x) (x_wfail x) (x_handle x) (x_evend x)) (a_s2c s) <
    fuel_for (set_flags x true (x_rerr x) (x_wfail x) (x_handle x) (x_evend x)))%nat.
 Proof.
-  intros HR HI. pose proof (nu_bound s HI) as NB. unfold nu in NB. unfold dmu, fuel_for. xsimp.
+  intros HR HI. pose proof (nu_bound cf s HI) as NB. unfold nu in NB. unfold dmu, fuel_for. xsimp.
   assert (drank (x_pt x) <= 3)%nat by (destruct (x_pt x); cbn; lia). lia.
 Qed.
 
@@ -371,7 +465,7 @@ Proof.
 Qed.
 
 (* the ids of the callers still waiting are those of the issued requests not yet answered, in issue order *)
-Lemma outstanding_ids cf x s : Rel cf x s -> Inv echo_reply s -> Inv2 echo_reply s ->
+Lemma outstanding_ids cf x s : Rel cf x s -> Inv (echo_reply cf) s -> Inv2 (echo_reply cf) s ->
   map fst (x_callers x) = map q_id (skipn (length (a_replies s)) (a_issued s)).
 Proof.
   intros HR HI H2. rewrite (r_callers _ _ _ HR).
@@ -383,38 +477,57 @@ Proof.
   rewrite skipn_app, Nat.sub_diag, skipn_all. cbn [skipn app callers_for held map]. rewrite map_map, E2. reflexivity.
 Qed.
 
-(* ---------- the theorem: a fault-free session, then the stream ends ---------- *)
+(* ---------- the theorems: a fault-free session, then the stream ends / every read fails ---------- *)
 
-Theorem exec_eof_resolves cf labs gls : in_fragment cf labs gls ->
+Lemma label_rerr x :
+  apply_label_g x (b "r") =
+  let x1 := set_flags x (x_eof x) true (x_wfail x) (x_handle x) (x_evend x) in
+  let '(x2, g2) := settle (fuel_for x1) x1 seg0 in (Some (b "r"), x2, Some g2).
+Proof.
+  unfold apply_label_g. change (split_on 58 (b "r")) with [[114]]. cbv beta iota zeta.
+  unfold apply_core. compute_eqb. cbv beta iota zeta. reflexivity.
+Qed.
+
+Lemma dmu_bound_rerr cf x s : Rel cf x s -> Inv (echo_reply cf) s ->
+  (dmu (set_flags x (x_eof x) true (x_wfail x) (x_handle x) (x_evend x)) (a_s2c s) <
+   fuel_for (set_flags x (x_eof x) true (x_wfail x) (x_handle x) (x_evend x)))%nat.
+Proof.
+  intros HR HI. pose proof (nu_bound cf s HI) as NB. unfold nu in NB. unfold dmu, fuel_for. xsimp.
+  assert (drank (x_pt x) <= 3)%nat by (destruct (x_pt x); cbn; lia). lia.
+Qed.
+
+(* what both theorems say about the segment [g'] and the state [x'] after the fault *)
+Definition all_resolved (gls : list glabel) (segs : list seg) (x' : xsys) (g' : seg) : Prop :=
+  (* the loop has left, or rests in the re-idle window with nothing queued *)
+  quiet x' /\
+  (* nobody is left waiting *)
+  x_callers x' = [] /\
+  (* every request ever issued has been resolved exactly once, in issue order: the answered ones before the
+     fault, the others (in flight, held, queued) by it *)
+  map fst (flat_map g_res segs ++ g_res g') = map q_id (flat_map issued_of gls) /\
+  g_panic g' = false.
+
+Lemma fault_resolves cf labs gls x1 :
+  in_fragment cf labs gls ->
   let xf := fst (xrun (xinit cf) labs) in
   let segs := snd (xrun (xinit cf) labs) in
-  let x' := snd (fst (apply_label_g xf (b "e"))) in
-  exists g', snd (apply_label_g xf (b "e")) = Some g' /\
-    (* the loop has left, or rests in the re-idle window with nothing queued *)
-    quiet x' /\
-    (* nobody is left waiting *)
-    x_callers x' = [] /\
-    (* every request ever issued has been resolved exactly once, in issue order: the answered ones before the end
-       of the stream, the others (in flight, held, queued) when it ended *)
-    map fst (flat_map g_res segs ++ g_res g') = map q_id (flat_map issued_of gls) /\
-    g_panic g' = false.
+  (forall sf, Rel cf xf sf -> Inv (echo_reply cf) sf -> DInv cf x1 (a_s2c sf) /\ (dmu x1 (a_s2c sf) < fuel_for x1)%nat) ->
+  x_callers x1 = x_callers xf ->
+  all_resolved gls segs (fst (settle (fuel_for x1) x1 seg0)) (snd (settle (fuel_for x1) x1 seg0)).
 Proof.
-  intros [F2 FG] xf segs x'.
+  intros [F2 FG] xf segs HD XC.
   destruct (exec_refines cf labs gls F2 FG) as [sch [nr [ne [WF [IQ [HR [HI [ER [ED [RS [EV PN]]]]]]]]]]].
-  fold xf in HR. fold segs in RS. set (sf := fold_left (LoopSpec.astep echo_reply) sch a0) in *.
+  fold xf in HR. fold segs in RS. set (sf := fold_left (LoopSpec.astep (echo_reply cf)) sch a0) in *.
   cbn [a0 a_replies app] in ER.
-  assert (H2 : Inv2 echo_reply sf) by (apply inv2_fold; [exact WF|apply inv0|apply inv2_0]).
+  assert (H2 : Inv2 (echo_reply cf) sf) by (apply inv2_fold; [exact WF|apply inv0|apply inv2_0]).
   assert (ISS : a_issued sf = flat_map issued_of gls).
   { unfold sf. rewrite issued_fold. cbn [a0 a_issued app]. exact IQ. }
-  subst x'. rewrite label_eof. cbv zeta.
-  set (x1 := set_flags xf true (x_rerr xf) (x_wfail xf) (x_handle xf) (x_evend xf)).
-  pose proof (drain_settles (fuel_for x1) x1 seg0 (a_s2c sf) (dinv_of_rel cf xf sf HR HI) (dmu_bound cf xf sf HR HI)) as DS.
+  destruct (HD sf HR HI) as [D MU].
+  pose proof (drain_settles cf (fuel_for x1) x1 seg0 (a_s2c sf) D MU) as DS.
   destruct (settle (fuel_for x1) x1 seg0) as [x2 g2]. cbn [fst snd] in *.
-  destruct DS as [Q [C [R P]]]. exists g2. split; [reflexivity|]. split; [exact Q|]. split; [exact C|]. split; [|exact P].
-  rewrite map_app, R. cbn [seg0 g_res map app].
-  assert (XC : x_callers x1 = x_callers xf) by reflexivity. rewrite XC.
+  destruct DS as [Q [C [R P]]]. split; [exact Q|]. split; [exact C|]. split; [|exact P].
+  rewrite map_app, R. cbn [seg0 g_res map app]. rewrite XC.
   rewrite (outstanding_ids cf xf sf HR HI H2), RS, <- ER, ISS.
-  (* answered = the first |replies| issued requests *)
   assert (PRE : map fst (map res_text (a_replies sf)) = map q_id (firstn (length (a_replies sf)) (a_issued sf))).
   { destruct HI as (_ & _ & _ & _ & _ & FF & _). unfold Inv2 in H2. rewrite map_map.
     destruct (a_pt sf) eqn:EP;
@@ -422,6 +535,34 @@ Proof.
     destruct H2 as [pre [q [E1 [_ [E3 _]]]]]. rewrite E3, map_length, map_map, <- FF, E1, <- app_assoc.
     rewrite firstn_app, Nat.sub_diag, firstn_all. cbn [firstn]. rewrite app_nil_r. reflexivity. }
   rewrite PRE, ISS, <- map_app, firstn_skipn. reflexivity.
+Qed.
+
+Theorem exec_eof_resolves cf labs gls : in_fragment cf labs gls ->
+  let xf := fst (xrun (xinit cf) labs) in
+  let segs := snd (xrun (xinit cf) labs) in
+  exists g', snd (apply_label_g xf (b "e")) = Some g' /\
+             all_resolved gls segs (snd (fst (apply_label_g xf (b "e")))) g'.
+Proof.
+  intros IF xf segs. rewrite label_eof. cbv zeta.
+  set (x1 := set_flags xf true (x_rerr xf) (x_wfail xf) (x_handle xf) (x_evend xf)).
+  pose proof (fault_resolves cf labs gls x1 IF
+                (fun sf HR HI => conj (dinv_of_rel cf xf sf HR HI) (dmu_bound cf xf sf HR HI)) eq_refl) as FR.
+  fold xf segs in FR. destruct (settle (fuel_for x1) x1 seg0) as [x2 g2]. cbn [fst snd] in *.
+  exists g2. split; [reflexivity|exact FR].
+Qed.
+
+Theorem exec_rerr_resolves cf labs gls : in_fragment cf labs gls ->
+  let xf := fst (xrun (xinit cf) labs) in
+  let segs := snd (xrun (xinit cf) labs) in
+  exists g', snd (apply_label_g xf (b "r")) = Some g' /\
+             all_resolved gls segs (snd (fst (apply_label_g xf (b "r")))) g'.
+Proof.
+  intros IF xf segs. rewrite label_rerr. cbv zeta.
+  set (x1 := set_flags xf (x_eof xf) true (x_wfail xf) (x_handle xf) (x_evend xf)).
+  pose proof (fault_resolves cf labs gls x1 IF
+                (fun sf HR HI => conj (dinv_of_rel_rerr cf xf sf HR HI) (dmu_bound_rerr cf xf sf HR HI)) eq_refl) as FR.
+  fold xf segs in FR. destruct (settle (fuel_for x1) x1 seg0) as [x2 g2]. cbn [fst snd] in *.
+  exists g2. split; [reflexivity|exact FR].
 Qed.
 
 (* non-vacuity: the example session of LoopRefineProofs, cut while request 1 is in flight (its reply is on the way,
